@@ -270,6 +270,81 @@ fn family_multi(rep: &mut Report, g: &mut Gen, seqlen: usize) {
     absorb(rep, g, outs, 499);
 }
 
+/// Names first written inside record data, referred to later: for every record type that carries
+/// names, every name slot, the name "n.e.w" (labels seen nowhere before) is written in that slot of
+/// the first record; a second record then uses one of its suffixes as owner or inside its own
+/// record data.  A wrong offset remembered for a label written in rdata shows up as a pointer into
+/// the wrong place.
+fn family_rdata_ref(rep: &mut Report, g: &mut Gen) {
+    let newn = rd::name("n.e.w");
+    let other = rd::name("o.t.h");
+    let suffixes: Vec<Name> = vec![rd::name("n.e.w"), rd::name("e.w"), rd::name("w"), rd::name("x.n.e.w"), rd::name("x.e.w")];
+    let qs: Vec<Name> = vec![rd::name("q"), vec![], rd::name("q.w")];
+    let owners1: Vec<Name> = vec![rd::name("q"), rd::name("r.q"), vec![]];
+    // (type, slot): slot 0 = first name of the rdata, 1 = second
+    let mut firsts: Vec<(u16, usize)> = vec![];
+    for t in [rd::T_NS, rd::T_CNAME, rd::T_PTR, rd::T_MX, rd::T_RT, rd::T_AFSDB, rd::T_NAPTR] {
+        firsts.push((t, 0));
+    }
+    for t in [rd::T_RP, rd::T_SOA] {
+        firsts.push((t, 0));
+        firsts.push((t, 1));
+    }
+    let seconds: Vec<u16> = vec![rd::T_A, rd::T_NS, rd::T_MX, rd::T_AFSDB, rd::T_SOA, rd::T_RP, rd::T_NAPTR];
+    let mut cases = vec![];
+    for qi in 0..qs.len() {
+        for oi in 0..owners1.len() {
+            for (fi, _) in firsts.iter().enumerate() {
+                for other_slot in 0..3usize {
+                    for (si, _) in suffixes.iter().enumerate() {
+                        for t2 in &seconds {
+                            // where the suffix goes in the second record: 0 = owner, 1 = rdata name 1, 2 = rdata name 2
+                            for place in 0..3usize {
+                                if place >= 1 && *t2 == rd::T_A {
+                                    continue;
+                                }
+                                if place == 2 && !two_names(*t2) {
+                                    continue;
+                                }
+                                for sec in [(0usize, 0usize), (0, 2), (1, 2)] {
+                                    cases.push((qi, oi, fi, other_slot, si, *t2, place, sec));
+                                }
+                            }
+                        }
+                    }
+                }
+            }
+        }
+    }
+    let outs: Vec<Outcome> = cases
+        .par_iter()
+        .map(|(qi, oi, fi, other_slot, si, t2, place, sec)| {
+            let (t1, slot) = firsts[*fi];
+            // the other name slot of a two-name type: root, a second new name, or the same new name
+            let oth: Name = match other_slot {
+                0 => vec![],
+                1 => other.clone(),
+                _ => newn.clone(),
+            };
+            let (a, b) = if slot == 0 { (newn.clone(), oth) } else { (oth, newn.clone()) };
+            let r1 = mk_rr(t1, &owners1[*oi], &a, &b, 60);
+            let sfx = &suffixes[*si];
+            let filler = rd::name("f");
+            let r2 = match place {
+                0 => mk_rr(*t2, sfx, &filler, &filler, 61),
+                1 => mk_rr(*t2, &filler, sfx, &filler, 61),
+                _ => mk_rr(*t2, &filler, &filler, sfx, 61),
+            };
+            let mut p = base_pkt(&qs[*qi]);
+            put(&mut p, sec.0, &r1);
+            put(&mut p, sec.1, &r2);
+            let case = json!({"engine":"c14","family":"rdata-ref","q":rd::name_str(&qs[*qi]),"first":{"type":t1,"slot":slot,"owner":rd::name_str(&owners1[*oi]),"other_slot":other_slot},"second":{"type":t2,"place":place,"name":rd::name_str(sfx)},"sections":[sec.0, sec.1]});
+            judge_structured(&p, "rdata-ref", case)
+        })
+        .collect();
+    absorb(rep, g, outs, 0);
+}
+
 pub fn boundary_pkt(target: usize, follow: usize) -> dnspkt::DNSPkt {
     // header 12 + question (root, 5 octets) = 17; each filler = 1 (root owner) + 10 + rdlen
     let mut p = base_pkt(&vec![]);
@@ -471,6 +546,7 @@ pub fn run(tier: &str, replay: Option<Value>) -> ! {
                 let mut g = Gen { evals: 0, classes: Default::default(), samples: vec![], bases: vec![] };
                 family_single(&mut rep, &mut g, 3);
                 family_multi(&mut rep, &mut g, 3);
+                family_rdata_ref(&mut rep, &mut g);
                 family_header(&mut rep, &mut g);
             }
         }
@@ -480,6 +556,7 @@ pub fn run(tier: &str, replay: Option<Value>) -> ! {
     family_single(&mut rep, &mut g, if thorough { 3 } else { 2 });
     let e1 = g.evals;
     family_multi(&mut rep, &mut g, 3);
+    family_rdata_ref(&mut rep, &mut g);
     let e2 = g.evals;
     family_boundary(&mut rep, &mut g, thorough);
     let e3 = g.evals;
@@ -489,7 +566,7 @@ pub fn run(tier: &str, replay: Option<Value>) -> ! {
     let e5 = g.evals;
     rep.cov("evaluations", g.evals);
     rep.cov("distinct_nontrivial", g.classes.len() as u64);
-    rep.cov("rule", "structured: every (question, section, type, owner, rdata-name[s]) over names of depth<=2 (thorough 3) on labels {a,b,63x}; every 3-record sequence over an 8-record alphabet x section split; name first written at every offset 0x3fe0..0x4020, 0xff80..0xffb0 (+ sweep) x 5 follow-ups; header/EDNS product. bytes: base encodings x every offset x byte values (quick 14 boundary values, thorough all 256) + own-offset + every truncation. distinct = (family, size class, pointer count / acceptance shape) classes");
+    rep.cov("rule", "structured: every (question, section, type, owner, rdata-name[s]) over names of depth<=2 (thorough 3) on labels {a,b,63x}; every 3-record sequence over an 8-record alphabet x section split; for every name-carrying type and name slot a new name written in record data and one of 5 suffix shapes of it used by a second record (owner or either rdata slot, 7 types) x 3 questions x 3 section pairs; name first written at every offset 0x3fe0..0x4020, 0xff80..0xffb0 (+ sweep) x 5 follow-ups; header/EDNS product. bytes: base encodings x every offset x byte values (quick 14 boundary values, thorough all 256) + own-offset + every truncation. distinct = (family, size class, pointer count / acceptance shape) classes");
     rep.cov("exhaustive", true);
     rep.cov("parts", json!({"single": e1, "multi": e2 - e1, "boundary": e3 - e2, "header": e4 - e3, "bytes": e5 - e4}));
     let mut samples = pick_samples(&g.samples, 4, rep.seed);
